@@ -45,6 +45,8 @@ Ext(b, ty) ==
             {Meth(b, "First", <<>>), Meth(b, "Count", <<>>), Meth(b, "Second", <<>>), Sub(b, IntC(0)),
              Fn("len", <<b>>)}
             \cup {Meth(b, "Select", <<Lam1("j", ib)>>) : ib \in Inner(ElemType(ty), "j")}
+            \* the inner lambda may re-use the name of the enclosing lambda's parameter
+            \cup {Meth(b, "Select", <<Lam1("e", ib)>>) : ib \in Inner(ElemType(ty), "e")}
             \cup {Meth(b, "Where", <<Lam1("j", ib)>>) :
                      ib \in {i2 \in Inner(ElemType(ty), "j") : TypeOf(i2, ("j" :> ElemType(ty))) = BoolT}}
             \cup {Meth(b, "SelectMany", <<Lam1("j", ib)>>) :
